@@ -546,6 +546,35 @@ Proof.
   unfold reach. rewrite marks_count. cbn. unfold n_total. cbn. lia.
 Qed.
 
+(* T2 over whole histories, run counts: along ANY history the request runs exactly for the
+   admitted Do* calls (once), the fallback exactly for the rejected calls that have one
+   (once) - never for an admitted call, whatever its request returned - and an admitted
+   call hands back what its request returned *)
+Lemma run_exact_runs : forall cfg cs w,
+  Forall2 (fun c o =>
+             o_req o = (if was_admitted o && negb (is_allow (k_entry c)) then 1 else 0) /\
+             o_fb o = (if was_rejected o && has_fallback (k_entry c) then 1 else 0) /\
+             (was_admitted o = true -> o_res o = result_of (k_entry c) (k_out c)) /\
+             (was_rejected o = true ->
+              o_res o = (if has_fallback (k_entry c) then RFallback else RUnavailable)))
+          cs (snd (run cfg w cs)).
+Proof.
+  induction cs as [|c cs IH]; intros w; [constructor|].
+  cbn [run]. destruct (step cfg w c) as [w1 o] eqn:Es.
+  specialize (IH w1). destruct (run cfg w1 cs) as [w2 os]. cbn [snd] in *.
+  constructor; [|exact IH].
+  pose proof (exact_accounting_step cfg w c) as H. cbn zeta in H. rewrite Es in H. cbn [fst snd] in H.
+  unfold was_admitted, was_rejected.
+  destruct (k_ctx c) eqn:Ectx.
+  1,2: destruct H as (v & Hv & H); rewrite Hv; destruct v; cbn [rejected negb andb] in *;
+       destruct H as (H1 & H2 & H3 & _); rewrite H1, H2, H3;
+       destruct (is_allow (k_entry c)), (has_fallback (k_entry c)); cbn; repeat split; intros; try discriminate; reflexivity.
+  destruct H as (H1 & H2 & H3 & _).
+  assert (Hn : o_verdict o = None).
+  { rewrite step_unfold in Es. cbn zeta in Es. rewrite Ectx in Es. injection Es as _ <-. reflexivity. }
+  rewrite Hn, H2, H3. cbn. repeat split; intros; discriminate.
+Qed.
+
 (* --------------------------------------------------------------- T3 *)
 
 Lemma last_throttled_in : forall ds,
